@@ -1,6 +1,7 @@
 package main
 
 import (
+	"reflect"
 	"fmt"
 
 	vast "verif/ast"
@@ -15,9 +16,27 @@ import (
 func checkC17() int {
 	c := NewCheck("C17")
 	pool := newPool()
-	c.Rule = "exhaustive: all 4 modes, 16 ordered pairs and 64 triples of the real Modality values (CanBeDownshiftedTo, CanBeUpshiftedTo, AllowsWeakening, AllowsContraction, Equals) against R4 (rep on top, lin at the bottom, mul and aff incomparable; sigma(rep)={W,C}, sigma(mul)={C}, sigma(aff)={W}, sigma(lin)={}): reflexivity, transitivity, antisymmetry, top/bottom, converse law, monotonicity of the structural rules; the 12 documented spellings through StringToMode; every tuple is non-trivial"
+	c.Rule = "exhaustive: all 4 modes, 16 ordered pairs and 64 triples of the real Modality values (CanBeDownshiftedTo, CanBeUpshiftedTo, AllowsWeakening, AllowsContraction, Equals) against R4 (rep on top, lin at the bottom, mul and aff incomparable; sigma(rep)={W,C}, sigma(mul)={C}, sigma(aff)={W}, sigma(lin)={}): reflexivity, transitivity, antisymmetry, top/bottom, converse law, monotonicity of the structural rules; the 12 documented spellings through StringToMode, asked in 12 seeded orders per run (mixed with capitalised and unknown spellings and with parses in between) in several runs: every answer must be the documented mode; every tuple is non-trivial"
 	c.Assumptions = []string{"nothing beyond the statement is asserted: case variants and unknown spellings are only recorded"}
-	outs := pool.Run([]sup.Job{{Kind: "modes"}}, nil)
+	// the job is run several times (each in whatever worker is free: fresh ones and ones that
+	// have served other jobs); every run asks the spellings in 12 seeded orders, mixed with
+	// capitalised and unknown spellings and with programs parsed in between
+	var mjobs []sup.Job
+	for k := 0; k < c.pick(8, 64); k++ {
+		mjobs = append(mjobs, sup.Job{Kind: "modes", Seed: uint64(subSeed(c.Seed, 1700+k))})
+	}
+	outs := pool.Run(mjobs, nil)
+	for _, o := range outs[1:] {
+		c.Evaluations++
+		if o.Died() || o.Res == nil || o.Res.Modes == nil {
+			c.Violation("evaluating the mode tables kills the host", map[string]interface{}{"stderr": clip(o.Deaths0(), 3000)})
+			continue
+		}
+		if !reflect.DeepEqual(o.Res.Modes.Down, outs[0].Res.Modes.Down) || !reflect.DeepEqual(o.Res.Modes.UpT, outs[0].Res.Modes.UpT) || !o.Res.Modes.TablesStable {
+			c.Violation("the mode tables differ between two evaluations", map[string]interface{}{"down": o.Res.Modes.Down, "up": o.Res.Modes.UpT})
+		}
+		c.Nontrivial(fmt.Sprint("run:", o.Job.Seed))
+	}
 	o := outs[0]
 	if o.Died() || o.Res == nil || o.Res.Modes == nil {
 		c.Violation("evaluating the mode tables kills the host", map[string]interface{}{"stderr": clip(o.Deaths0(), 3000)})
@@ -96,7 +115,20 @@ func checkC17() int {
 		c.Nontrivial("s:" + s)
 		if t.Spell[s] != m.String() {
 			c.Violation(fmt.Sprintf("spelling %q does not denote %s", s, m), map[string]interface{}{"got": t.Spell[s]})
+			continue
 		}
+		for _, oo := range outs {
+			if oo.Res == nil || oo.Res.Modes == nil {
+				continue
+			}
+			if all := oo.Res.Modes.SpellAll[s]; len(all) != 1 || all[0] != m.String() {
+				c.Violation(fmt.Sprintf("spelling %q does not always denote %s: the answer depends on what was asked before", s, m), map[string]interface{}{"answers": all, "run_seed": oo.Job.Seed})
+				break
+			}
+		}
+	}
+	if !t.TablesStable {
+		c.Violation("the mode tables differ between two evaluations", map[string]interface{}{"down": t.Down})
 	}
 	c.Extra["exhaustive"] = true
 	c.Extra["tables"] = map[string]interface{}{"names": t.Names, "down": t.Down, "up": t.UpT, "weaken": t.Weaken, "contract": t.Contract}
